@@ -21,7 +21,7 @@ from .. import beamops
 from ..femchain import OpaqueGroup, XFe, fe_hook_full
 from ..repo import AnalysisError, dotted, norm_text
 from ..flow import Locals
-from ..xeval import Interp, XObj, Opaque
+from ..xeval import Interp, XObj, Opaque, XRaise
 from ..xarray import XArray
 from types import SimpleNamespace
 
@@ -129,30 +129,44 @@ def congruence_rules(ctx, lib):
             r.fail(f.qualname, f"dim{dim}", f.file, f.lineno, "GradU_A_GradV", f"anisotropic conductivity operator is not k*wJ*dN^T A dN for a non-symmetric A (rows follow grad u, columns grad v, as the user form (u.grad @ A).dot(v.grad)): {bad}")
         else:
             r.ok(f"GradU_A_GradV dim {dim}: K_e == k*wJ*dN^T A dN")
-    # beam operators: einsum specs  "ep,epji,epjk,epkl->eil" with operands (w, X, S, X)
-    for fname in ("BeamBending", "BeamShear", "BeamStiffness", "BeamMass"):
+    # beam operators, interpreted on a stand-in element (one element, two integration points, a generic 3 x 4 operator X and a
+    # generic symmetric-free middle factor S): the result must be sum_p w_p X_p^T S_p X_p entry by entry.  (The einsum
+    # subscripts used to be parsed from the call syntax: "no einsum found" on a rewrite that moved the contraction into a
+    # helper, refactored/C01-R3.)  The Timoshenko split is decided by R2.6; here the Euler-Bernoulli / generic path.
+    from ..femchain import XFe
+
+    ns, nd, npg = 3, 4, 2
+    wv = [Poly.var(f"w{p}") for p in range(npg)]
+    Xv = [[[Poly.var(f"X{p}{a}{b}") for b in range(nd)] for a in range(ns)] for p in range(npg)]
+    Sv = [[[Poly.var(f"S{p}{a}{b}") for b in range(ns)] for a in range(ns)] for p in range(npg)]
+    want = [[sum((wv[p] * Xv[p][a][i_] * Sv[p][a][b] * Xv[p][b][j_] for p in range(npg) for a in range(ns) for b in range(ns)), Poly.const(0)) for j_ in range(nd)] for i_ in range(nd)]
+    for fname, getter, mid in (("BeamStiffness", "Get_beam_B_e_pg", "Calc_D_e_pg"), ("BeamBending", "Get_beam_B_e_pg", "Calc_D_e_pg"), ("BeamMass", "Get_beam_N_e_pg", "Calc_M_e_pg")):
         f = repo.func(f"{BIL}.{fname}")
         r.instance(fn=f.qualname)
-        calls = [n for n in ast.walk(f.node) if isinstance(n, ast.Call) and (dotted(n.func) or "").endswith("einsum")]
-        if not calls:
-            r.fail(f.qualname, "no-einsum", f.file, f.lineno, fname, "no einsum found")
+        g = XObj(repo.cls("EasyFEA.FEM._group_elem._GroupElem"), dict(Ne=1, nPe=2))
+        g.attrs["Get_weightedJacobian_e_pg"] = lambda mt=None: XFe((1, npg), list(wv))
+        g.attrs[getter] = lambda bs=None, mt=None: XFe((1, npg, ns, nd), [Xv[p][a][b] for p in range(npg) for a in range(ns) for b in range(nd)])
+        bs = SimpleNamespace(dim=1, dof_n=2)
+        setattr(bs, mid, lambda ge=None, mt=None: XFe((1, npg, ns, ns), [Sv[p][a][b] for p in range(npg) for a in range(ns) for b in range(ns)]))
+        I_b = Interp(repo)
+        I_b.call_hook = fe_hook_full
+        try:
+            out = XArray.from_nested(I_b.call_function(f, [g, bs]))
+        except XRaise as e:
+            r.fail(f.qualname, "einsum", f.file, f.lineno, fname, f"raises {e}")
             continue
-        for c in calls:
-            spec = c.args[0].value if isinstance(c.args[0], ast.Constant) else None
-            ops = [norm_text(a) for a in c.args[1:]]
-            ok = False
-            if spec and "->" in spec:
-                ins, out = spec.replace(" ", "").split("->")
-                ins = ins.split(",")
-                if len(ins) == 4 and len(ops) == 4:
-                    w, x1, s, x2 = ins
-                    # X^T S X : x1 = e p j i, s = e p j k, x2 = e p k l, out = e i l, same operand X on both sides
-                    if len(x1) == 4 and len(s) == 4 and len(x2) == 4 and x1[2] == s[2] and s[3] == x2[2] and out == x1[:1] + x1[3] + x2[3] and ops[1] == ops[3] and w == x1[:2]:
-                        ok = True
-            if ok:
-                r.ok(f"{fname}: einsum('{spec}', {', '.join(ops)}) == sum_p w X^T S X")
-            else:
-                r.fail(f.qualname, "einsum", f.file, c.lineno, fname, f"einsum('{spec}', {', '.join(ops)}) is not of the congruence shape sum_p w X^T S X with the same X on both sides")
+        bad = None
+        if out.shape != (1, nd, nd):
+            bad = f"shape {out.shape}, expected (1, {nd}, {nd})"
+        else:
+            for i_ in range(nd):
+                for j_ in range(nd):
+                    if bad is None and not is_zero(Poly.of(out[0, i_, j_]) - want[i_][j_]):
+                        bad = f"entry [{i_},{j_}] is not sum_p w_p (X_p^T S_p X_p)[{i_},{j_}]"
+        if bad:
+            r.fail(f.qualname, "einsum", f.file, f.lineno, fname, f"on a generic operator X (3 x 4), middle factor S and weights w at two integration points the result is not the congruence sum_p w X^T S X: {bad}")
+        else:
+            r.ok(f"{fname} == sum_p w X^T S X on generic X, S, w")
 
 
 def rank_rules(ctx, lib, gl, only_stiffness=False):
